@@ -209,8 +209,8 @@ fn transform(
             ));
         }
 
-        for index in 0..n {
-            operands[index] = operands[index] - buffer[index];
+        for (operand, original) in operands.iter_mut().zip(&buffer) {
+            *operand = *operand - *original;
         }
 
         m
